@@ -18,12 +18,18 @@ Lemma exec_pp : forall cstep pick v cfg p t1 t2 x, v_rewrite v = true ->
 Proof.
   intros cstep pick v cfg p t1 t2 x Hv. destruct x; cbn [exec].
   - (* Core *)
-    unfold x_core. cbn [pp tt]. destruct x; try (destruct (cstep (core p) _) as [c1 r]; cbn; split; reflexivity).
+    unfold x_core. cbn [pp tt].
+    destruct x; try (destruct (cstep (core p) _) as [c1 r]; cbn; split; reflexivity).
+    + (* MarkDb *) destruct (stream_on _ p); [cbn; split; reflexivity|]. destruct (cstep (core p) _) as [c1 r]; cbn; split; reflexivity.
     + (* DropDb *) destruct (find_db (core p) db); [|cbn; split; reflexivity].
       destruct (cstep (core p) (DropDb db)) as [c1 r]. cbn. split; reflexivity.
+    + (* MarkRp *) destruct (stream_on _ p); [cbn; split; reflexivity|]. destruct (cstep (core p) _) as [c1 r]; cbn; split; reflexivity.
+    + (* MarkMst *) destruct (stream_on _ p); [cbn; split; reflexivity|]. destruct (cstep (core p) _) as [c1 r]; cbn; split; reflexivity.
     + (* CreateNode *)
       unfold x_create_dnode, rewrite_expand. rewrite Hv. cbn [pp tt witht withp set_t_expand t_expand].
       destruct (existsb _ (nodes (core p)) || existsb _ (nodes (core p))); cbn; split; reflexivity.
+    + (* UpdatePt *)
+      destruct ((status =? 0) && node_alive p owner); destruct (cstep _ _) as [c1 r]; cbn; split; reflexivity.
   - unfold x_create_user. cbn [pp tt]. split_matches; cbn; split; reflexivity.
   - unfold x_drop_user. cbn [pp tt]. split_matches; cbn; split; reflexivity.
   - unfold x_update_user. cbn [pp tt]. split_matches; cbn; split; reflexivity.
@@ -45,6 +51,14 @@ Proof.
   - cbn. split; reflexivity.
   - unfold x_register_qid. cbn [pp tt]. split_matches; cbn; split; reflexivity.
   - cbn. split; reflexivity.
+  - unfold x_pt_version, xok. cbn [pp tt]. split_matches; cbn; split; reflexivity.
+  - unfold x_node_status. cbn [pp tt]. split_matches; cbn; split; reflexivity.
+  - unfold x_sql_status. cbn [pp tt]. split_matches; cbn; split; reflexivity.
+  - unfold x_meta_status. cbn [pp tt]. split_matches; cbn; split; reflexivity.
+  - unfold x_shard_tier. cbn [pp tt]. split_matches; cbn; split; reflexivity.
+  - unfold x_index_tier. cbn [pp tt]. split_matches; cbn; split; reflexivity.
+  - unfold x_create_stream. cbn [pp tt]. split_matches; cbn; split; reflexivity.
+  - unfold x_drop_stream. cbn [pp tt]. split_matches; cbn; split; reflexivity.
 Qed.
 
 Lemma apply_pp : forall cstep pick v cfg s1 s2 e, v_rewrite v = true -> pp s1 = pp s2 ->
@@ -69,6 +83,36 @@ Proof.
   destruct (x_run cstep pick v cfg a r) as [a2 ras], (x_run cstep pick v cfg b r) as [b2 rbs]. cbn [fst snd] in *.
   split; [exact C | rewrite D; reflexivity].
 Qed.
+
+
+(* what the housekeeping after a catalogue command leaves alone *)
+Lemma gc_cqs : forall cfg p, cqs (gc cfg p) = cqs p.
+Proof. reflexivity. Qed.
+Lemma gc_users : forall cfg p, users (gc cfg p) = users p.
+Proof. reflexivity. Qed.
+Lemma dnode_cqs : forall v cfg s h t, cqs (pp (fst (x_create_dnode v cfg s h t))) = cqs (pp s).
+Proof.
+  intros. unfold x_create_dnode, rewrite_expand. destruct (v_rewrite v); cbn [pp tt witht withp];
+    destruct (existsb _ _ || existsb _ _); reflexivity.
+Qed.
+Lemma dnode_users : forall v cfg s h t, users (pp (fst (x_create_dnode v cfg s h t))) = users (pp s).
+Proof.
+  intros. unfold x_create_dnode, rewrite_expand. destruct (v_rewrite v); cbn [pp tt witht withp];
+    destruct (existsb _ _ || existsb _ _); reflexivity.
+Qed.
+Lemma dnode_admin : forall v cfg s h t, t_admin (tt (fst (x_create_dnode v cfg s h t))) = t_admin (tt s).
+Proof.
+  intros. unfold x_create_dnode, rewrite_expand. destruct (v_rewrite v); cbn [pp tt witht withp];
+    destruct (existsb _ _ || existsb _ _); reflexivity.
+Qed.
+
+Ltac core_cases cstep s :=
+  unfold x_core; cbn zeta;
+  repeat match goal with
+         | |- context [if ?e then _ else _] => destruct e
+         | |- context [match find_db ?a ?b with _ => _ end] => destruct (find_db a b)
+         | |- context [cstep ?a ?b] => destruct (cstep a b)
+         end.
 
 (* ---------------------------------------------------------------------------------------------- round trip *)
 Definition time_ok (o : option Z) : Prop := match o with None => True | Some n => n <> 0 /\ MININT <= n <= MAXNANO1 end.
@@ -109,11 +153,11 @@ Lemma cq_wf_exec : forall cstep pick v cfg s x, v_cqfix v = true ->
   cq_wf (pp s) -> cq_wf (pp (fst (exec cstep pick v cfg s x))).
 Proof.
   intros cstep pick v cfg s x Hv He H. unfold cq_wf in *. destruct x; cbn [exec]; try exact H.
-  - unfold x_core. destruct x; try (destruct (cstep (core (pp s)) _) as [c1 r]; cbn; exact H).
-    + destruct (find_db (core (pp s)) db); [|exact H]. destruct (cstep _ _) as [c1 r]. cbn.
-      apply Forall_forall. intros c Hin. apply filter_In in Hin. rewrite Forall_forall in H. apply H. tauto.
-    + unfold x_create_dnode, rewrite_expand. destruct (v_rewrite v); cbn [pp tt witht withp];
-        destruct (existsb _ _ || existsb _ _); cbn; exact H.
+  - destruct x; try (core_cases cstep s; cbn; exact H).
+    + (* DropDb *) core_cases cstep s; cbn; try exact H;
+        (apply Forall_forall; intros c0 Hin; apply filter_In in Hin; rewrite Forall_forall in H; apply H; tauto).
+    + (* CreateNode *) unfold x_core. cbn zeta. pose proof (dnode_cqs v cfg s http tcp) as E.
+      destruct (x_create_dnode v cfg s http tcp) as [s1 r]. cbn [fst] in *. cbn. rewrite E. exact H.
   - unfold x_create_user. split_matches; cbn; exact H.
   - unfold x_drop_user. split_matches; cbn; exact H.
   - unfold x_update_user. split_matches; cbn; exact H.
@@ -133,6 +177,14 @@ Proof.
   - unfold x_create_sql, rewrite_expand. split_matches; cbn; exact H.
   - unfold x_tmp_index. split_matches; cbn; exact H.
   - unfold x_register_qid. split_matches; cbn; exact H.
+  - unfold x_pt_version, xok. split_matches; cbn; exact H.
+  - unfold x_node_status. split_matches; cbn; exact H.
+  - unfold x_sql_status. split_matches; cbn; exact H.
+  - unfold x_meta_status. split_matches; cbn; exact H.
+  - unfold x_shard_tier. split_matches; cbn; exact H.
+  - unfold x_index_tier. split_matches; cbn; exact H.
+  - unfold x_create_stream. split_matches; cbn; exact H.
+  - unfold x_drop_stream. split_matches; cbn; exact H.
 Qed.
 
 Lemma cq_wf_apply : forall cstep pick v cfg s e, v_cqfix v = true -> entry_ok e -> cq_wf (pp s) ->
@@ -208,11 +260,11 @@ Proof. intros g l Hg. induction l as [|x r IH]; cbn; [reflexivity|]. rewrite Hg,
 Lemma admin_inv_exec : forall cstep pick v cfg s x, admin_inv s -> admin_inv (fst (exec cstep pick v cfg s x)).
 Proof.
   intros cstep pick v cfg s x H. unfold admin_inv in *. destruct x; cbn [exec]; try exact H.
-  - unfold x_core. destruct x; try (destruct (cstep (core (pp s)) _) as [c1 r]; cbn; exact H).
-    + destruct (find_db (core (pp s)) db); [|exact H]. destruct (cstep _ _) as [c1 r]. cbn.
-      rewrite existsb_map_admin by (intros; reflexivity). exact H.
-    + unfold x_create_dnode, rewrite_expand. destruct (v_rewrite v); cbn [pp tt witht withp];
-        destruct (existsb _ _ || existsb _ _); cbn; exact H.
+  - destruct x; try (core_cases cstep s; cbn; exact H).
+    + (* DropDb *) core_cases cstep s; cbn; try exact H;
+        (rewrite existsb_map_admin by (intros; reflexivity); exact H).
+    + (* CreateNode *) unfold x_core. cbn zeta. pose proof (dnode_users v cfg s http tcp) as E. pose proof (dnode_admin v cfg s http tcp) as Ea.
+      destruct (x_create_dnode v cfg s http tcp) as [s1 r]. cbn [fst] in *. cbn. rewrite E, Ea. exact H.
   - unfold x_create_user. destruct (name =? 0); [exact H|]. destruct (find_user _ _); [exact H|].
     destruct (admin && existsb u_admin (users (pp s))) eqn:E; [exact H|]. cbn. rewrite existsb_app. cbn.
     destruct admin; cbn in *; [rewrite E; reflexivity | rewrite orb_false_r; exact H].
@@ -231,6 +283,14 @@ Proof.
   - unfold x_create_sql, rewrite_expand. split_matches; cbn; exact H.
   - unfold x_tmp_index. split_matches; cbn; exact H.
   - unfold x_register_qid. split_matches; cbn; exact H.
+  - unfold x_pt_version, xok. split_matches; cbn; exact H.
+  - unfold x_node_status. split_matches; cbn; exact H.
+  - unfold x_sql_status. split_matches; cbn; exact H.
+  - unfold x_meta_status. split_matches; cbn; exact H.
+  - unfold x_shard_tier. split_matches; cbn; exact H.
+  - unfold x_index_tier. split_matches; cbn; exact H.
+  - unfold x_create_stream. split_matches; cbn; exact H.
+  - unfold x_drop_stream. split_matches; cbn; exact H.
 Qed.
 
 Lemma admin_inv_apply : forall cstep pick v cfg s e, admin_inv s -> admin_inv (fst (x_apply cstep pick v cfg s e)).
@@ -250,10 +310,11 @@ Definition pick_valid (pick : list Z -> option Z) : Prop :=
    functions: same state, same result *)
 Lemma exec_order : forall cs1 cs2 pk1 pk2 v cfg s x, v_dsubfix v = true ->
   (forall c, cs1 (core (pp s)) c = cs2 (core (pp s)) c) ->
+  (forall c db pt co cs o st, cs1 c (UpdatePt db pt co cs o st) = cs2 c (UpdatePt db pt co cs o st)) ->
   exec cs1 pk1 v cfg s x = exec cs2 pk2 v cfg s x.
 Proof.
-  intros cs1 cs2 pk1 pk2 v cfg s x Hv Hc. destruct x; cbn [exec]; try reflexivity.
-  - unfold x_core. destruct x; rewrite ?Hc; reflexivity.
+  intros cs1 cs2 pk1 pk2 v cfg s x Hv Hc Hu. destruct x; cbn [exec]; try reflexivity.
+  - unfold x_core. destruct x; rewrite ?Hc, ?Hu; reflexivity.
   - unfold x_drop_sub. rewrite Hv. reflexivity.
 Qed.
 
@@ -307,7 +368,7 @@ Section Oracles.
     x_apply (stepO o1) pk1 v cfg s e = x_apply (stepO o2) pk2 v cfg s e.
   Proof.
     intros o1 o2 pk1 pk2 s [[tm ix] x] Hv V1 V2 U. unfold x_apply.
-    rewrite (exec_order (stepO o1) (stepO o2) pk1 pk2 v cfg s x Hv); [reflexivity|].
+    rewrite (exec_order (stepO o1) (stepO o2) pk1 pk2 v cfg s x Hv); [reflexivity | | reflexivity].
     intros c. apply apply_order_independent_lemma; assumption.
   Qed.
 
